@@ -3,6 +3,7 @@ package vc
 import (
 	"fmt"
 	"go/types"
+	"strconv"
 	"strings"
 
 	"gocv/internal/spec"
@@ -195,6 +196,19 @@ func (f *fnState) call(i *ssa.Call) {
 				}
 			}
 		}
+		if fc == nil && pureStdlib(callee) {
+			f.vals[i] = f.pureCall(callee, args, i.Type())
+			return
+		}
+		if fc == nil && f.e.effectFree(callee, map[*ssa.Function]bool{}) {
+			f.note("callees without a contract that write no memory are treated as pure (arbitrary result): " + callee.String())
+			if t, ok := i.Type().(*types.Tuple); ok && t.Len() == 0 {
+				f.vals[i] = SV{Typ: i.Type()}
+			} else {
+				f.vals[i] = f.freshOf("pure", i.Type())
+			}
+			return
+		}
 		if fc == nil {
 			if f.canInline(callee) {
 				f.vals[i] = f.inlineCall(callee, args, i.Type())
@@ -205,7 +219,21 @@ func (f *fnState) call(i *ssa.Call) {
 		}
 		f.vals[i] = f.applyContract(fc, key, names, args, sig, i.Type())
 	default:
-		f.vals[i] = f.unknownCall("dynamic call", i.Type())
+		// a call through a function value obeys the contract declared for its function type, if any
+		sig, _ := c.Value.Type().Underlying().(*types.Signature)
+		key := "functype:?"
+		if sig != nil {
+			key = "functype:" + SigKey(sig)
+		}
+		if fc := f.e.Contracts[key]; fc != nil {
+			var args []SV
+			for _, a := range c.Args {
+				args = append(args, f.val(a))
+			}
+			f.vals[i] = f.applyContract(fc, key, fc.ParamNames, args, sig, i.Type())
+			return
+		}
+		f.vals[i] = f.unknownCall("dynamic call of "+typeName(c.Value.Type()), i.Type())
 	}
 }
 
@@ -457,6 +485,38 @@ func (f *fnState) modItem(e spec.Expr, ctx *specCtx, get func(string) *modSet) {
 			}
 		}
 	case *spec.Sel:
+		// p.f.g : one location of the field map of a (nested) struct field
+		if base, names := selChain(x); len(names) > 1 {
+			if p := f.specVal(base, ctx); p.LV != nil && len(p.LV.Path) == 0 {
+				t := p.LV.RootT
+				ok := true
+				for _, n := range names {
+					st, isSt := t.Underlying().(*types.Struct)
+					if !isSt {
+						ok = false
+						break
+					}
+					found := false
+					for k := 0; k < st.NumFields(); k++ {
+						if st.Field(k).Name() == n {
+							t = st.Field(k).Type()
+							found = true
+						}
+					}
+					if !found {
+						ok = false
+						break
+					}
+				}
+				if ok {
+					loc := f.locTerm(p)
+					for _, key := range f.leafKeysAt(p.LV.RootT, names, t) {
+						get(key).preds = append(get(key).preds, func(k string) string { return eq(k, loc) })
+					}
+					return
+				}
+			}
+		}
 		// p.f : one location of a field map
 		p := f.specVal(x.X, ctx)
 		if p.LV != nil {
@@ -915,4 +975,153 @@ func (f *fnState) inlineCall(callee *ssa.Function, args []SV, rt types.Type) SV 
 		return SV{Typ: rt}
 	}
 	return f.freshOf("inl", rt)
+}
+
+// selChain splits a.b.c into (a, [b c]) where a is the innermost non-selector expression.
+func selChain(e spec.Expr) (spec.Expr, []string) {
+	var names []string
+	for {
+		s, ok := e.(*spec.Sel)
+		if !ok {
+			break
+		}
+		names = append([]string{s.Name}, names...)
+		e = s.X
+	}
+	return e, names
+}
+
+var purePkgs = map[string]bool{"fmt": true, "strings": true, "strconv": true, "errors": true, "unicode": true, "sort": true, "bytes": true, "unicode/utf8": true, "math": true, "path": true, "path/filepath": true}
+
+// pureStdlib: value-level helpers of the standard library do not touch program-visible memory
+// other than the elements of slices they are handed (assumption, recorded in the evidence).
+func pureStdlib(callee *ssa.Function) bool {
+	return callee.Pkg != nil && purePkgs[callee.Pkg.Pkg.Path()] && len(callee.Blocks) == 0
+}
+
+func (f *fnState) pureCall(callee *ssa.Function, args []SV, rt types.Type) SV {
+	if callee.Pkg.Pkg.Path() == "errors" && callee.Name() == "Is" && len(args) == 2 && args[0].Sort == sIface && args[1].Sort == sIface {
+		return f.mk(rt, fmt.Sprintf("(errIs %s %s)", args[0].T, args[1].T))
+	}
+	f.note("assumption: fmt/strings/strconv/errors/unicode/sort/bytes calls change no program-visible memory except elements of slices passed to them")
+	for _, a := range args {
+		if callee.Pkg.Pkg.Path() != "sort" {
+			break // only the sort package permutes the slices it is given
+		}
+		if a.Sort == sSlice && a.Typ != nil {
+			if st, ok := a.Typ.Underlying().(*types.Slice); ok && sortOf(st.Elem()) != "" {
+				key := elemMapKey(st.Elem())
+				ms := "(Array Loc " + sortOf(st.Elem()) + ")"
+				old := f.heapMap(key, sortOf(st.Elem()))
+				nv := f.fresh(mapName(key), ms)
+				f.set(key, SV{Sort: ms, T: nv})
+				base := a.T
+				f.assume(fmt.Sprintf("(forall ((fk Loc)) (! (=> (not (= (l-ref fk) (l-ref (s-loc %s)))) (= (select %s fk) (select %s fk))) :pattern ((select %s fk))))", base, nv, old, nv))
+			}
+		}
+	}
+	var res SV
+	if t, ok := rt.(*types.Tuple); ok {
+		if t.Len() == 0 {
+			return SV{Typ: rt}
+		}
+		res = SV{Typ: rt}
+		for k := 0; k < t.Len(); k++ {
+			res.Agg = append(res.Agg, f.freshOf("lib", t.At(k).Type()))
+		}
+	} else {
+		res = f.freshOf("lib", rt)
+	}
+	// results that are slices/pointers are freshly allocated
+	nr := f.get(f.cur, "G$nextref", sInt).T
+	n2 := f.fresh("nextref", sInt)
+	f.fact(fmt.Sprintf("(>= %s %s)", n2, nr))
+	f.set("G$nextref", SV{Sort: sInt, T: n2})
+	f.resultRefFacts(res)
+	name := callee.Pkg.Pkg.Path() + "." + callee.Name()
+	if name == "fmt.Errorf" || name == "errors.New" {
+		f.assume(fmt.Sprintf("(not (= %s %s))", res.T, nilIface))
+		f.assume(fmt.Sprintf("(>= (l-ref (i-ptr %s)) %s)", res.T, nr)) // a new error value
+		// what errors.Is sees in the result: itself, and (fmt.Errorf with %w) at most what its operands match
+		wraps := "false"
+		if name == "fmt.Errorf" && len(args) == 2 && args[1].Sort == sSlice {
+			n, err := strconv.Atoi(strings.TrimSpace(f.constLen(args[1])))
+			if err != nil || n > 8 {
+				f.note("fmt.Errorf with an operand list of unknown length: nothing known about what the result wraps (" + args[1].T + ")")
+				return res
+			}
+			var ds []string
+			em := f.heapMap(elemMapKey(types.NewInterfaceType(nil, nil)), sIface)
+			for k := 0; k < n; k++ {
+				ds = append(ds, fmt.Sprintf("(errIs (select %s (mk-loc (l-ref (s-loc %s)) (+ (l-idx (s-loc %s)) %d))) t)", em, args[1].T, args[1].T, k))
+			}
+			if len(ds) > 0 {
+				wraps = "(or " + strings.Join(ds, " ") + " false)"
+			}
+		}
+		f.note("assumption: an error made by errors.New or fmt.Errorf matches (errors.Is) only itself and what its operands match")
+		f.assume(fmt.Sprintf("(forall ((t Iface)) (! (=> (errIs %s t) (or (= %s t) %s)) :pattern ((errIs %s t))))", res.T, res.T, wraps, res.T))
+	}
+	return res
+}
+
+// effectFree: the function (with body) performs no store through a pointer it did not allocate,
+// no map update, and calls only builtins, pure library helpers and effect-free functions.
+func (e *Engine) effectFree(fn *ssa.Function, seen map[*ssa.Function]bool) bool {
+	if v, ok := e.pureMemo[fn]; ok {
+		return v
+	}
+	if seen[fn] {
+		return true
+	}
+	seen[fn] = true
+	if len(fn.Blocks) == 0 {
+		return pureStdlib(fn)
+	}
+	res := true
+	for _, b := range fn.Blocks {
+		for _, ins := range b.Instrs {
+			switch x := ins.(type) {
+			case *ssa.Store:
+				if !localAddr(x.Addr) {
+					res = false
+				}
+			case *ssa.MapUpdate, *ssa.Go, *ssa.Defer, *ssa.Send, *ssa.Select, *ssa.Panic:
+				res = false
+			case *ssa.Call:
+				switch c := x.Call.Value.(type) {
+				case *ssa.Builtin:
+					if c.Name() == "copy" || c.Name() == "delete" {
+						res = false
+					}
+				case *ssa.Function:
+					if x.Call.IsInvoke() || !e.effectFree(c, seen) {
+						res = false
+					}
+				default:
+					res = false
+				}
+			}
+		}
+	}
+	if e.pureMemo == nil {
+		e.pureMemo = map[*ssa.Function]bool{}
+	}
+	e.pureMemo[fn] = res
+	return res
+}
+
+// localAddr: the address is (a field/element of) a local variable of the function.
+func localAddr(v ssa.Value) bool {
+	switch a := v.(type) {
+	case *ssa.Alloc:
+		return !a.Heap
+	case *ssa.FieldAddr:
+		return localAddr(a.X)
+	case *ssa.IndexAddr:
+		if _, ok := a.X.Type().Underlying().(*types.Pointer); ok {
+			return localAddr(a.X)
+		}
+	}
+	return false
 }
